@@ -285,6 +285,11 @@ def run(tier):
         payload = {"property": PROP, "dsl_text": c.get("text"), "fault": fault, "where": c.get("where"), "specification": v,
                    "loader": {"verdict": kind, "rule": rule, "loc": loc, "message": c["outcome"].get("err", {}).get("display")}, "case": {k: c[k] for k in c if k in ("id", "prog", "src", "mode", "dbg", "globals", "fault", "where")}}
         if kind == "parse-error":
+            if fault.startswith("none") or fault.startswith("ok-") or fault in ("underscore-capture-unused-ok", "shorthand-ok", "capture-used-only-in-later-call-arg-ok"):
+                # a file built to be valid (and written by the renderer that C07 checks) is refused before the rules are even looked at
+                payload["detail"] = "breaks no static rule, but the loader rejects it with a parse error: %s" % rule
+                V.violation(c["id"], payload, {"observed": "rejected-valid", "rule": "parse-error"})
+                continue
             raise C.ToolError("generated file does not parse: %s\n%s" % (rule, c.get("text")))
         if c["outcome"]["status"] in ("load_panic",):
             payload["detail"] = "the loader panicked"
